@@ -657,10 +657,89 @@ def policy_case(text, j, brk):
     return None, done, cmds
 
 
+# two files with operations on the same line numbers: a bare line number in break / clear means that line of the file the
+# debugger is stopped in. Straight-line code, every SET is two instructions, so the reference is a table.
+MULTI_MAIN = 'SET(R1, 1)\nSET(R2, 2)\n#include "lib.hera"\nSET(R3, 7)\nSET(R4, 8)\nSET(R7, 9)\n'
+MULTI_LIB = "SET(R5, 1)\nSET(R5, 2)\nSET(R5, 3)\nSET(R3, 3)\nSET(R6, 6)\n"
+MULTI_PCS = [("main", 1), ("main", 2), ("lib", 1), ("lib", 2), ("lib", 3), ("lib", 4), ("lib", 5), ("main", 4), ("main", 5), ("main", 6)]
+
+
+def multifile_case(cmds):
+    """Returns (problem or None, commands done)."""
+    import os
+    import shutil
+    import tempfile
+    import hera.debugger as DBG
+    import hera.loader as L
+    import hera.utils as U
+    d = tempfile.mkdtemp(prefix="hera_verif_mf_")
+    try:
+        with open(os.path.join(d, "main.hera"), "w") as f:
+            f.write(MULTI_MAIN)
+        with open(os.path.join(d, "lib.hera"), "w") as f:
+            f.write(MULTI_LIB)
+        st = make_settings("debug", {})
+        with proto.Capture() as cap:
+            try:
+                prog = L.load_program_from_file(U.Path(os.path.join(d, "main.hera")), st)
+                shell = DBG.Shell(DBG.Debugger(prog, st), st)
+            except BaseException as e:  # noqa
+                cap.take()
+                return "loading the two-file program raised " + type(e).__name__, 0
+            cap.take()
+        end = 2 * len(MULTI_PCS)
+        if len(prog.code) != end:
+            return "skip", 0
+        pc, bps, done = 0, set(), 0
+        where = {(f, ln): 2 * i for i, (f, ln) in enumerate(MULTI_PCS)}
+        for c in cmds:
+            if pc >= end:
+                break
+            parts = c.split()
+            if parts[0] == "next":
+                pc += 2
+            elif parts[0] == "continue":
+                later = sorted(b for b in bps if b > pc)
+                pc = later[0] if later else end
+            elif parts[0] in ("break", "clear"):
+                tgt = where.get((MULTI_PCS[pc // 2][0], int(parts[1])))
+                if tgt is not None:
+                    (bps.add if parts[0] == "break" else bps.discard)(tgt)
+            out, errs, exc, cont = dbg.feed(shell, c, limit=5)
+            done += 1
+            if exc:
+                return "{!r} raised {}".format(c, exc), done
+            if shell.debugger.vm.pc != pc:
+                return "after {!r} (command {}, two-file program): the debugger is at instruction {} ({}), expected {} ({})".format(
+                    c, done, shell.debugger.vm.pc, MULTI_PCS[min(shell.debugger.vm.pc, end - 1) // 2], pc, MULTI_PCS[min(pc, end - 1) // 2]), done
+            if set(shell.debugger.breakpoints) != bps:
+                return "after {!r} (command {}, stopped in {}.hera): breakpoints at instructions {}, expected {}".format(
+                    c, done, MULTI_PCS[min(pc, end - 1) // 2][0], sorted(shell.debugger.breakpoints), sorted(bps)), done
+        return None, done
+    finally:
+        shutil.rmtree(d, ignore_errors=True)
+
+
+def gen_multifile_cmds(rng):
+    return [rng.choice(["next", "next", "continue", "break {}".format(rng.randint(1, 7)), "break {}".format(rng.randint(1, 7)),
+                        "clear {}".format(rng.randint(1, 7))]) for _ in range(rng.choice([4, 8, 14]))]
+
+
 def check_c12(seed, n):
     rng = random.Random(seed)
     violations, evals, dist = [], 0, {"programs": 0, "commands": 0}
     seen = set()
+    for k in range(max(40, n // 4)):
+        cmds = gen_multifile_cmds(rng)
+        r, done = multifile_case(cmds)
+        if r == "skip":
+            break
+        evals += done
+        dist["multifile_sessions"] = dist.get("multifile_sessions", 0) + 1
+        seen.add(("multifile", tuple(cmds)))
+        if r:
+            violations.append({"property": "C12", "stream": "c12multifile", "sig": "c12mf:" + re.sub(r"[0-9]+", "N", r)[:40],
+                               "case": {"multifile": True, "cmds": cmds}, "what": r})
     for text, j, brk in call_policy_sessions():
         r, done, cmds = policy_case(text, j, brk)
         if r == "skip":
